@@ -37,9 +37,10 @@ type Op struct {
 }
 
 type HistCase struct {
-	Kind string `json:"kind"` // "hist"
-	Mode string `json:"mode"` // "" (local) | "remote" (no client set: falls back to the local limiter)
-	Ops  []Op   `json:"ops"`
+	Kind     string `json:"kind"` // "hist"
+	Mode     string `json:"mode"` // "" (local) | "remote" (no client set: falls back to the local limiter)
+	Universe string `json:"universe,omitempty"` // informational: "colliding" = look-alike names
+	Ops      []Op   `json:"ops"`
 }
 
 type Out struct {
@@ -452,8 +453,28 @@ func shrinkHist(c *rig.Ctx, h HistCase) HistCase {
 // generator
 
 var (
-	clusterNames = []string{"a", "b"}
-	schemaNames  = []string{"x", "y", "z"}
+	// Name universes. Half of the histories use plain distinct names; the other half use a small COLLIDING
+	// universe: names that any normalisation of map keys (case folding - ASCII and Unicode -, trimming, space
+	// squeezing, prefix matching, NUL truncation, special-casing of the default name) would identify. The code
+	// keys limiters by the exact byte string, and so do the model and the judge: a normalisation shows up as a
+	// bound or isolation judge failure (a schema refusing/admitting by another schema's limit or load).
+	clusterSets = [][]string{
+		{"a", "b"}, {"a", "b"}, {"a", "b"},
+		{"a", "A"}, {"a", "a "}, {"c.local", "C.local"}, {"ab", "a"},
+	}
+	schemaSets = [][]string{
+		{"x", "y", "z"},
+		{"Batch", "batch", "BATCH"},
+		{"a", "ab", "abc"},
+		{"x", " x", "x "},
+		{"q q", "qq", "q  q"},
+		{"system-default", "System-Default", "system-default "},
+		{"\u00e9", "\u00c9", "e"},     // é / É
+		{"k", "K", "\u212a"},          // KELVIN SIGN lower-cases to k
+		{"x", "x\x00", "X"},
+		{" ", "\t", "\u00a0"},         // empty-looking names validation accepts
+		{"x/y", "x", "y"},
+	}
 	strategies   = []string{"", "", "", "local", "globalAllocate", "globalCount"}
 )
 
@@ -523,6 +544,13 @@ func genHistCase(c *rig.Ctx) HistCase {
 	cur := map[string][]Schema{}
 	nextID := 1
 	var open []int
+	clusterNames, schemaNames := clusterSets[0], schemaSets[0]
+	colliding := c.Rng.Intn(2) == 0
+	if colliding {
+		clusterNames = rig.Pick(c.Rng, clusterSets)
+		schemaNames = schemaSets[1+c.Rng.Intn(len(schemaSets)-1)]
+		h.Universe = "colliding"
+	}
 	// a focus pair makes collisions (same schema hit again and again) likely
 	fc, fn := rig.Pick(c.Rng, clusterNames), rig.Pick(c.Rng, schemaNames)
 	pickC := func() string {
@@ -555,7 +583,13 @@ func genHistCase(c *rig.Ctx) HistCase {
 			}
 			list = append(list, f)
 			for _, other := range schemaNames {
-				if other != fn && c.Rng.Intn(3) == 0 {
+				if other == fn {
+					continue
+				}
+				if colliding && c.Rng.Intn(3) > 0 {
+					// the look-alikes are usually configured side by side, as max-in-flight schemas with their own limits
+					list = append(list, Schema{Name: rig.Hex(other), Strategy: rig.Hex(""), Mi: i32(int32(c.Rng.Intn(5)))})
+				} else if !colliding && c.Rng.Intn(3) == 0 {
 					list = append(list, genSchema(c, other))
 				}
 			}
@@ -620,7 +654,7 @@ func genHistCase(c *rig.Ctx) HistCase {
 				// usually a configured schema, the focus one if present
 				name = rig.UnHex(l[c.Rng.Intn(len(l))].Name)
 				for _, s := range l {
-					if rig.UnHex(s.Name) == fn && c.Rng.Intn(3) > 0 {
+					if rig.UnHex(s.Name) == fn && c.Rng.Intn(3) > 0 && !(colliding && c.Rng.Intn(2) == 0) {
 						name = fn
 					}
 				}
@@ -734,6 +768,9 @@ func genHist(c *rig.Ctx) {
 		}
 		if h.Mode == "remote" {
 			c.Count("hist-mode:remote-without-clientset")
+		}
+		if h.Universe != "" {
+			c.Count("hist-names:" + h.Universe)
 		}
 		for k, op := range h.Ops {
 			c.Count("hist-op:" + op.Op)
